@@ -8,7 +8,9 @@
 (*            poll event | mio-0.6 channel) x async stream consumer         *)
 (*            (poll_next: take | store waker | take | park)                 *)
 (*  "mio6", "mio8"  the same receive thread x a consumer that waits for     *)
-(*            readiness and then takes until empty (take = drain | fill)    *)
+(*            readiness and then takes until empty (take = drain | fill;   *)
+(*            yield points "d0" in front of the drain of the notifications, *)
+(*            "t1" in front of the fill from the topic cache)               *)
 (*  "awrite"  AsyncWrite::poll on a full command queue (try_send | store    *)
 (*            waker | retry | park) x Writer::process_writer_command (pop & *)
 (*            wake per command)                                             *)
@@ -22,6 +24,17 @@
 (*            mutex ("sl0", scheduler-aware), so the atomicity of "look,    *)
 (*            then register the waker" is a fact the model states (lk) and  *)
 (*            the conformance run checks, not an assumption.                *)
+(*  "awaitq"  the same future against a command queue that already holds  *)
+(*            N unprocessed writes (N = Cap: the queue is FULL when the    *)
+(*            future is first polled: store the waker of the queue slot |  *)
+(*            try_send fails | park | woken by a pop | try again) and a    *)
+(*            writer with Readers reliable matched readers, which          *)
+(*            acknowledge only after the Writer has worked off the queue:  *)
+(*            the wait has to stay pending until then (C20) and complete   *)
+(*            after it (C13).  The application's Waker yields inside       *)
+(*            clone() (label "wc"): "look, then register" windows of the   *)
+(*            polling code are open to the other thread wherever the code  *)
+(*            clones the waker, without a yield point in the crate.        *)
 (*  "nkstream", "nkbare"  the same receive thread x the async stream of a  *)
 (*            no_key DataReader: a wrapper that polls the keyed stream     *)
 (*            again (in the same poll) whenever it yields a dispose, which *)
@@ -33,14 +46,15 @@
 (***************************************************************************)
 EXTENDS Integers, Sequences, FiniteSets, TLC, Json
 
-CONSTANTS Scenario,   \* "stream" | "mio6" | "mio8" | "awrite" | "await"
-          N,          \* samples to inject / writes beyond the queue capacity
+CONSTANTS Scenario,   \* "stream" | "mio6" | "mio8" | "awrite" | "await" | "awaitq" | "nkstream" | "nkbare"
+          N,          \* samples to inject / writes beyond the queue capacity / "awaitq": writes queued before the wait
           Cap,        \* capacity of the command queue (16 in the code)
           Kinds,      \* "nkstream"/"nkbare": kind of the i-th item, "V" value | "D" dispose (Len >= N)
           Script,     \* reader scenarios: what the receive thread gets, one entry per datagram (<<>> = N samples in order):
                       \*   "D" DATA in order (one more sample available), "O" DATA out of order (cached, held back: the
                       \*   consumer is notified and finds nothing), "H" a HEARTBEAT / GAP that declares the missing
                       \*   number unavailable and thereby releases everything held back (notifies only if it did)
+          Readers,    \* "awaitq": reliable readers matched to the writer (0 | 1); they acknowledge once the Writer has processed every write
           GenK
 
 VARIABLES
@@ -55,9 +69,14 @@ VARIABLES
   finished,       \* "await": the future returned Ready
   lk,             \* "await": the mutex of the completion channel's waker slot is held by the application
   held, idx,      \* reader scenarios: samples cached but held back; position in Script
+  cmdIn,          \* "awaitq": the WaitForAcknowledgments command sits in the command queue (behind the writes)
+  ackw,           \* "awaitq": the Writer holds an AckWaiter (somebody still has to acknowledge)
+  acked,          \* "awaitq": the matched reliable reader has acknowledged everything that was written
+  seen,           \* what the application could observe of the producer's side when it took its latest step (see Snap)
   trail
 
-vars == <<pc0, pc1, ins, del, waker, waker2, wakeFlag, r8, n6, q, sent, cmdSent, signal, finished, lk, held, idx, trail>>
+aq == <<cmdIn, ackw, acked>>
+vars == <<pc0, pc1, ins, del, waker, waker2, wakeFlag, r8, n6, q, sent, cmdSent, signal, finished, lk, held, idx, cmdIn, ackw, acked, seen, trail>>
 
 \* item kinds for the configurations (a cfg file cannot write a tuple)
 KindsNone == <<>>
@@ -72,12 +91,23 @@ NoKey == Scenario \in {"nkstream", "nkbare"}
 Init ==
   /\ pc0 = IF Reader THEN "r_inject" ELSE "w_pop"
   /\ pc1 = CASE Scenario \in {"stream", "nkstream", "nkbare"} -> "a_poll" [] Scenario \in {"mio6", "mio8"} -> "c_wait"
-             [] Scenario = "awrite" -> "aw_poll" [] Scenario = "await" -> "e_poll"
+             [] Scenario = "awrite" -> "aw_poll" [] Scenario \in {"await", "awaitq"} -> "e_poll"
   /\ ins = 0 /\ del = 0 /\ waker = FALSE /\ waker2 = FALSE /\ wakeFlag = FALSE /\ r8 = FALSE /\ n6 = 0
-  /\ q = 0 /\ sent = 0 /\ cmdSent = FALSE /\ signal = FALSE /\ finished = FALSE /\ lk = FALSE /\ held = 0 /\ idx = 0
+  /\ q = (IF Scenario = "awaitq" THEN N ELSE 0)    \* "awaitq": N writes are queued before anything else happens
+  /\ sent = 0 /\ cmdSent = FALSE /\ signal = FALSE /\ finished = FALSE /\ lk = FALSE /\ held = 0 /\ idx = 0
+  /\ cmdIn = FALSE /\ ackw = FALSE /\ acked = FALSE
+  /\ seen = <<FALSE, FALSE, FALSE, FALSE, FALSE>>
   /\ trail = <<>>
 
-T(i) == trail' = Append(trail, i)
+\* The answers the application gets when it looks at the state shared with the producer: is a sample available, is the
+\* mio-0.6 channel / the mio-0.8 source readable, is the command queue full, is the completion signal there.
+\* `seen` keeps the answers as of the application's latest step.  It is part of the VIEW: two behaviours are the same
+\* state for TLC only if the application, in its latest step, could not have told them apart.  The actions below read
+\* the shared state at one definite place; code that looks EARLIER within the same stretch (a check moved in front of
+\* the registration that the model has first) behaves differently in two behaviours the plain state would merge, and
+\* the schedule that TLC hands to the driver has to be the one in which the application went first.
+Snap == <<ins > del, n6 > 0, r8, q >= Cap, signal>>
+T(i) == trail' = Append(trail, i) /\ seen' = (IF i = 1 THEN Snap ELSE seen)
 
 (* ------------------------------------------------ thread 0: receive thread *)
 ScriptNone == <<>>
@@ -93,15 +123,15 @@ R0 == /\ Reader /\ pc0 = "r_inject" /\ idx < NEvents
                 [] kind = "O" -> ins' = ins /\ held' = held + 1 /\ pc0' = "n0"           \* cache insert, notify (nothing to take yet)
                 [] kind = "H" -> ins' = ins + held /\ held' = 0                          \* the marker moves iff something was held
                                  /\ pc0' = IF held > 0 THEN "n0" ELSE "r_inject"
-      /\ UNCHANGED <<pc1, del, waker, wakeFlag, r8, n6, q, sent, cmdSent, signal, finished, waker2, lk>> /\ T(0)
+      /\ UNCHANGED <<pc1, del, waker, wakeFlag, r8, n6, q, sent, cmdSent, signal, finished, waker2, lk>> /\ UNCHANGED aq /\ T(0)
 R1 == /\ pc0 = "n0" /\ pc0' = "n1"                           \* waker.take().map(wake)
       /\ waker' = FALSE /\ wakeFlag' = (wakeFlag \/ waker)
-      /\ UNCHANGED <<pc1, ins, del, r8, n6, q, sent, cmdSent, signal, finished, lk, held, idx, waker2>> /\ T(0)
+      /\ UNCHANGED <<pc1, ins, del, r8, n6, q, sent, cmdSent, signal, finished, lk, held, idx, waker2>> /\ UNCHANGED aq /\ T(0)
 R2 == /\ pc0 = "n1" /\ pc0' = "n2" /\ r8' = TRUE             \* poll_event_sender.send()
-      /\ UNCHANGED <<pc1, ins, del, waker, wakeFlag, n6, q, sent, cmdSent, signal, finished, lk, held, idx, waker2>> /\ T(0)
+      /\ UNCHANGED <<pc1, ins, del, waker, wakeFlag, n6, q, sent, cmdSent, signal, finished, lk, held, idx, waker2>> /\ UNCHANGED aq /\ T(0)
 R3 == /\ pc0 = "n2" /\ pc0' = "r_inject"                     \* notification_sender.try_send(())
       /\ n6' = IF n6 < 4 THEN n6 + 1 ELSE n6
-      /\ UNCHANGED <<pc1, ins, del, waker, wakeFlag, r8, q, sent, cmdSent, signal, finished, lk, held, idx, waker2>> /\ T(0)
+      /\ UNCHANGED <<pc1, ins, del, waker, wakeFlag, r8, q, sent, cmdSent, signal, finished, lk, held, idx, waker2>> /\ UNCHANGED aq /\ T(0)
 
 (* ------------------------------------------------- thread 0: writer thread *)
 \* process_writer_command pops every queued command; after each pop it wakes the stored waker
@@ -110,31 +140,51 @@ W0 == /\ Scenario = "awrite" /\ pc0 \in {"w_pop", "k1"}
            THEN /\ q' = q - 1 /\ pc0' = "k1"
                 /\ wakeFlag' = (wakeFlag \/ waker)             \* cc_upload_waker is woken by reference (it stays stored)
            ELSE /\ pc0' = "w_pop" /\ UNCHANGED <<q, wakeFlag>>
-      /\ UNCHANGED <<pc1, ins, del, r8, n6, sent, cmdSent, finished, lk, held, idx, waker2, signal, waker>> /\ T(0)
+      /\ UNCHANGED <<pc1, ins, del, r8, n6, sent, cmdSent, finished, lk, held, idx, waker2, signal, waker>> /\ UNCHANGED aq /\ T(0)
 \* "await": the only command is the wait itself; no reader is matched, so it completes at once: the Writer goes
 \* straight to StatusChannelSender::try_send and stops in front of the channel's mutex
 W1 == /\ Scenario = "await" /\ pc0 = "w_pop"
       /\ IF q > 0 THEN q' = q - 1 /\ pc0' = "sl0" ELSE UNCHANGED <<q, pc0>>
-      /\ UNCHANGED <<pc1, ins, del, r8, n6, sent, cmdSent, finished, lk, held, idx, waker2, signal, waker, wakeFlag>> /\ T(0)
+      /\ UNCHANGED <<pc1, ins, del, r8, n6, sent, cmdSent, finished, lk, held, idx, waker2, signal, waker, wakeFlag>> /\ UNCHANGED aq /\ T(0)
 \* lock | send | wake and take the stored waker | unlock
 W2 == /\ pc0 = "sl0" /\ ~lk
       /\ signal' = TRUE /\ wakeFlag' = (wakeFlag \/ waker) /\ waker' = FALSE /\ pc0' = "w_pop"
-      /\ UNCHANGED <<pc1, ins, del, r8, n6, q, sent, cmdSent, finished, lk, held, idx, waker2>> /\ T(0)
+      /\ UNCHANGED <<pc1, ins, del, r8, n6, q, sent, cmdSent, finished, lk, held, idx, waker2>> /\ UNCHANGED aq /\ T(0)
 \* scheduled while the application is inside its critical section: blocked on the mutex, no progress
 W2b == /\ pc0 = "sl0" /\ lk
-       /\ UNCHANGED <<pc0, pc1, ins, del, r8, n6, q, sent, cmdSent, finished, lk, held, idx, waker2, signal, waker, wakeFlag>> /\ T(0)
+       /\ UNCHANGED <<pc0, pc1, ins, del, r8, n6, q, sent, cmdSent, finished, lk, held, idx, waker2, signal, waker, wakeFlag>> /\ UNCHANGED aq /\ T(0)
+
+\* "awaitq": process_writer_command works off the queue (every write: pop, wake the waker of the queue slot BY REFERENCE,
+\* yield "k1"); the wait command at its end either finds nothing owed (-> completion signal, "sl0") or leaves an
+\* AckWaiter; when the event loop is idle and everything was processed the reader's ACKNACK (base = last + 1) arrives
+Owed == Readers > 0 /\ N > 0 /\ ~acked          \* a reliable matched reader has not acknowledged every sample written
+DataQ == q - (IF cmdIn THEN 1 ELSE 0)
+WQ0 == /\ Scenario = "awaitq" /\ pc0 \in {"w_pop", "k1"}
+       /\ IF DataQ > 0
+            THEN /\ q' = q - 1 /\ pc0' = "k1" /\ wakeFlag' = (wakeFlag \/ waker2)
+                 /\ UNCHANGED <<cmdIn, ackw, acked>>
+          ELSE IF cmdIn
+            THEN /\ q' = q - 1 /\ cmdIn' = FALSE /\ UNCHANGED <<wakeFlag, acked>>
+                 /\ IF Owed THEN ackw' = TRUE /\ pc0' = "w_pop" ELSE pc0' = "sl0" /\ UNCHANGED ackw
+          ELSE IF pc0 = "k1"                                     \* queue empty: back to the event loop
+            THEN pc0' = "w_pop" /\ UNCHANGED <<q, wakeFlag, cmdIn, ackw, acked>>
+          ELSE IF Owed                                           \* ACKNACK for everything
+            THEN /\ acked' = TRUE /\ UNCHANGED <<q, wakeFlag, cmdIn>>
+                 /\ IF ackw THEN ackw' = FALSE /\ pc0' = "sl0" ELSE UNCHANGED <<ackw, pc0>>
+          ELSE UNCHANGED <<q, pc0, wakeFlag, cmdIn, ackw, acked>>
+       /\ UNCHANGED <<pc1, ins, del, r8, n6, sent, cmdSent, finished, lk, held, idx, waker2, signal, waker>> /\ T(0)
 
 (* ------------------------------------------ thread 1: async stream consumer *)
 S0 == /\ Scenario = "stream" /\ pc1 = "a_poll"              \* first try_take_one
       /\ IF ins > del THEN del' = del + 1 /\ pc1' = "a_poll" ELSE pc1' = "p1" /\ UNCHANGED del
-      /\ UNCHANGED <<pc0, ins, waker, wakeFlag, r8, n6, q, sent, cmdSent, signal, finished, lk, held, idx, waker2>> /\ T(1)
+      /\ UNCHANGED <<pc0, ins, waker, wakeFlag, r8, n6, q, sent, cmdSent, signal, finished, lk, held, idx, waker2>> /\ UNCHANGED aq /\ T(1)
 S1 == /\ pc1 = "p1" /\ pc1' = "p2" /\ waker' = TRUE         \* set_waker
-      /\ UNCHANGED <<pc0, ins, del, wakeFlag, r8, n6, q, sent, cmdSent, signal, finished, lk, held, idx, waker2>> /\ T(1)
+      /\ UNCHANGED <<pc0, ins, del, wakeFlag, r8, n6, q, sent, cmdSent, signal, finished, lk, held, idx, waker2>> /\ UNCHANGED aq /\ T(1)
 S2 == /\ ~NoKey /\ pc1 = "p2"                               \* second try_take_one
       /\ IF ins > del THEN del' = del + 1 /\ pc1' = "a_poll" ELSE pc1' = "a_parked" /\ UNCHANGED del
-      /\ UNCHANGED <<pc0, ins, waker, wakeFlag, r8, n6, q, sent, cmdSent, signal, finished, lk, held, idx, waker2>> /\ T(1)
+      /\ UNCHANGED <<pc0, ins, waker, wakeFlag, r8, n6, q, sent, cmdSent, signal, finished, lk, held, idx, waker2>> /\ UNCHANGED aq /\ T(1)
 S3 == /\ pc1 = "a_parked" /\ wakeFlag /\ wakeFlag' = FALSE /\ pc1' = "a_poll"    \* the executor re-polls a woken task
-      /\ UNCHANGED <<pc0, ins, del, waker, r8, n6, q, sent, cmdSent, signal, finished, lk, held, idx, waker2>> /\ T(1)
+      /\ UNCHANGED <<pc0, ins, del, waker, r8, n6, q, sent, cmdSent, signal, finished, lk, held, idx, waker2>> /\ UNCHANGED aq /\ T(1)
 
 (* --------------------------- thread 1: async stream of a no_key DataReader *)
 \* del counts the items taken out of the cache (values handed over and disposes skipped).
@@ -145,69 +195,87 @@ Skip(d) == IF d < ins /\ Kinds[d + 1] = "D" THEN Skip(d + 1) ELSE d
 NK0 == /\ NoKey /\ pc1 = "a_poll"                             \* first try_take_one (after any skipped disposes)
        /\ LET d2 == Skip(del) IN
             IF ins > d2 THEN del' = d2 + 1 /\ pc1' = "a_poll" ELSE del' = d2 /\ pc1' = "p1"
-       /\ UNCHANGED <<pc0, ins, waker, wakeFlag, r8, n6, q, sent, cmdSent, signal, finished, lk, held, idx, waker2>> /\ T(1)
+       /\ UNCHANGED <<pc0, ins, waker, wakeFlag, r8, n6, q, sent, cmdSent, signal, finished, lk, held, idx, waker2>> /\ UNCHANGED aq /\ T(1)
 NK2 == /\ NoKey /\ pc1 = "p2"                                 \* second try_take_one
        /\ IF ins > del
             THEN IF Kinds[del + 1] = "V" THEN del' = del + 1 /\ pc1' = "a_poll"
                  ELSE LET d2 == Skip(del) IN                  \* a dispose: the wrapper polls the keyed stream again
                       IF ins > d2 THEN del' = d2 + 1 /\ pc1' = "a_poll" ELSE del' = d2 /\ pc1' = "p1"
             ELSE pc1' = "a_parked" /\ UNCHANGED del
-       /\ UNCHANGED <<pc0, ins, waker, wakeFlag, r8, n6, q, sent, cmdSent, signal, finished, lk, held, idx, waker2>> /\ T(1)
+       /\ UNCHANGED <<pc0, ins, waker, wakeFlag, r8, n6, q, sent, cmdSent, signal, finished, lk, held, idx, waker2>> /\ UNCHANGED aq /\ T(1)
 
 (* -------------------------------------------------- thread 1: mio consumers *)
 Readable == IF Scenario = "mio6" THEN n6 > 0 ELSE r8
 C0 == /\ Scenario \in {"mio6", "mio8"} /\ pc1 = "c_wait" /\ Readable    \* poll returned an event
-      /\ pc1' = "c_take"
-      /\ UNCHANGED <<pc0, ins, del, waker, wakeFlag, r8, n6, q, sent, cmdSent, signal, finished, lk, held, idx, waker2>> /\ T(1)
-C1 == /\ pc1 = "c_take" /\ pc1' = "t1" /\ n6' = 0 /\ r8' = FALSE        \* take(): drain_read_notifications
-      /\ UNCHANGED <<pc0, ins, del, waker, wakeFlag, q, sent, cmdSent, signal, finished, lk, held, idx, waker2>> /\ T(1)
+      /\ pc1' = "d0"                                                      \* ... and take() was entered: stops in front of the drain
+      /\ UNCHANGED <<pc0, ins, del, waker, wakeFlag, r8, n6, q, sent, cmdSent, signal, finished, lk, held, idx, waker2>> /\ UNCHANGED aq /\ T(1)
+C1 == /\ pc1 = "d0" /\ pc1' = "t1" /\ n6' = 0 /\ r8' = FALSE        \* take(): drain_read_notifications
+      /\ UNCHANGED <<pc0, ins, del, waker, wakeFlag, q, sent, cmdSent, signal, finished, lk, held, idx, waker2>> /\ UNCHANGED aq /\ T(1)
 C2 == /\ pc1 = "t1"                                                      \* take(): fill + take everything
-      /\ del' = ins /\ pc1' = IF ins > del THEN "c_take" ELSE "c_wait"    \* take until empty
-      /\ UNCHANGED <<pc0, ins, waker, wakeFlag, r8, n6, q, sent, cmdSent, signal, finished, lk, held, idx, waker2>> /\ T(1)
+      /\ del' = ins /\ pc1' = IF ins > del THEN "d0" ELSE "c_wait"    \* take until empty
+      /\ UNCHANGED <<pc0, ins, waker, wakeFlag, r8, n6, q, sent, cmdSent, signal, finished, lk, held, idx, waker2>> /\ UNCHANGED aq /\ T(1)
 
 (* ------------------------------------------------------ thread 1: AsyncWrite *)
 A0 == /\ Scenario = "awrite" /\ pc1 = "aw_poll" /\ sent < Cap + N       \* try_send
       /\ IF q < Cap THEN q' = q + 1 /\ sent' = sent + 1 /\ pc1' = "aw_poll"
          ELSE pc1' = "w1" /\ UNCHANGED <<q, sent>>
-      /\ UNCHANGED <<pc0, ins, del, waker, wakeFlag, r8, n6, cmdSent, signal, finished, lk, held, idx, waker2>> /\ T(1)
+      /\ UNCHANGED <<pc0, ins, del, waker, wakeFlag, r8, n6, cmdSent, signal, finished, lk, held, idx, waker2>> /\ UNCHANGED aq /\ T(1)
 A1 == /\ pc1 = "w1" /\ pc1' = "w2" /\ waker' = TRUE                      \* store waker
-      /\ UNCHANGED <<pc0, ins, del, wakeFlag, r8, n6, q, sent, cmdSent, signal, finished, lk, held, idx, waker2>> /\ T(1)
+      /\ UNCHANGED <<pc0, ins, del, wakeFlag, r8, n6, q, sent, cmdSent, signal, finished, lk, held, idx, waker2>> /\ UNCHANGED aq /\ T(1)
 A2 == /\ pc1 = "w2"                                                      \* retry with the waker in place
       /\ IF q < Cap THEN q' = q + 1 /\ sent' = sent + 1 /\ pc1' = "aw_poll"
          ELSE pc1' = "aw_parked" /\ UNCHANGED <<q, sent>>
-      /\ UNCHANGED <<pc0, ins, del, waker, wakeFlag, r8, n6, cmdSent, signal, finished, lk, held, idx, waker2>> /\ T(1)
+      /\ UNCHANGED <<pc0, ins, del, waker, wakeFlag, r8, n6, cmdSent, signal, finished, lk, held, idx, waker2>> /\ UNCHANGED aq /\ T(1)
 A3 == /\ pc1 = "aw_parked" /\ wakeFlag /\ wakeFlag' = FALSE /\ pc1' = "aw_poll"
-      /\ UNCHANGED <<pc0, ins, del, waker, r8, n6, q, sent, cmdSent, signal, finished, lk, held, idx, waker2>> /\ T(1)
+      /\ UNCHANGED <<pc0, ins, del, waker, r8, n6, q, sent, cmdSent, signal, finished, lk, held, idx, waker2>> /\ UNCHANGED aq /\ T(1)
 
 (* ----------------------------------- thread 1: AsyncWaitForAcknowledgments *)
 E0 == /\ Scenario = "await" /\ pc1 = "e_poll" /\ ~cmdSent               \* WaitingSendCommand: try_send
       /\ q' = q + 1 /\ cmdSent' = TRUE /\ pc1' = "a1" /\ waker2' = TRUE    \* waker stored before try_send
-      /\ UNCHANGED <<pc0, ins, del, waker, wakeFlag, r8, n6, sent, signal, finished, lk, held, idx>> /\ T(1)
-E1 == /\ pc1 \in {"a1", "e_repoll"}                                     \* Waiting: lock the waker slot, try_recv
+      /\ UNCHANGED <<pc0, ins, del, waker, wakeFlag, r8, n6, sent, signal, finished, lk, held, idx>> /\ UNCHANGED aq /\ T(1)
+E1 == /\ pc1 \in {"a1", "e_repoll"} /\ (pc1 = "e_repoll" => cmdSent)       \* Waiting: lock the waker slot, try_recv
       /\ IF signal THEN finished' = TRUE /\ pc1' = "e_done" /\ UNCHANGED lk
          ELSE lk' = TRUE /\ pc1' = "sr1" /\ UNCHANGED finished          \* empty: stays inside the critical section
-      /\ UNCHANGED <<pc0, ins, del, waker, wakeFlag, r8, n6, q, sent, cmdSent, signal, waker2, held, idx>> /\ T(1)
-E1b == /\ pc1 = "sr1"                                                   \* store the waker, unlock, return Pending
+      /\ UNCHANGED <<pc0, ins, del, waker, wakeFlag, r8, n6, q, sent, cmdSent, signal, waker2, held, idx>> /\ UNCHANGED aq /\ T(1)
+E1b == /\ Scenario = "await" /\ pc1 = "sr1"                                                   \* store the waker, unlock, return Pending
        /\ waker' = TRUE /\ lk' = FALSE /\ pc1' = "e_parked"
-       /\ UNCHANGED <<pc0, ins, del, wakeFlag, r8, n6, q, sent, cmdSent, signal, finished, waker2, held, idx>> /\ T(1)
+       /\ UNCHANGED <<pc0, ins, del, wakeFlag, r8, n6, q, sent, cmdSent, signal, finished, waker2, held, idx>> /\ UNCHANGED aq /\ T(1)
 E2 == /\ pc1 = "e_parked" /\ wakeFlag /\ wakeFlag' = FALSE /\ pc1' = "e_repoll"
-      /\ UNCHANGED <<pc0, ins, del, waker, r8, n6, q, sent, cmdSent, signal, finished, lk, held, idx, waker2>> /\ T(1)
+      /\ UNCHANGED <<pc0, ins, del, waker, r8, n6, q, sent, cmdSent, signal, finished, lk, held, idx, waker2>> /\ UNCHANGED aq /\ T(1)
 
-Next == R0 \/ R1 \/ R2 \/ R3 \/ W0 \/ S0 \/ S1 \/ S2 \/ S3 \/ NK0 \/ NK2 \/ C0 \/ C1 \/ C2 \/ A0 \/ A1 \/ A2 \/ A3 \/ E0 \/ E1 \/ E1b \/ E2 \/ W1 \/ W2 \/ W2b
+\* "awaitq": WaitingSendCommand: clone the waker (yields in clone) | store it in the slot of the command queue, try_send:
+\* room -> Waiting (as "await"), full -> keep the state, return Pending; a woken task that has not sent yet tries again
+EQ0 == /\ Scenario = "awaitq" /\ pc1 \in {"e_poll", "e_repoll"} /\ ~cmdSent /\ pc1' = "wc0"
+       /\ UNCHANGED <<pc0, ins, del, waker, waker2, wakeFlag, r8, n6, q, sent, cmdSent, signal, finished, lk, held, idx>> /\ UNCHANGED aq /\ T(1)
+EQ1 == /\ pc1 = "wc0" /\ waker2' = TRUE
+       /\ IF q < Cap THEN q' = q + 1 /\ cmdSent' = TRUE /\ cmdIn' = TRUE /\ pc1' = "a1"
+          ELSE pc1' = "e_parked" /\ UNCHANGED <<q, cmdSent, cmdIn>>
+       /\ UNCHANGED <<pc0, ins, del, waker, wakeFlag, r8, n6, sent, signal, finished, lk, held, idx, ackw, acked>> /\ T(1)
+\* completion channel empty: clone the waker (still inside the critical section) | store it, unlock, return Pending
+EQ1b == /\ Scenario = "awaitq" /\ pc1 = "sr1" /\ pc1' = "wc1"
+        /\ UNCHANGED <<pc0, ins, del, waker, waker2, wakeFlag, r8, n6, q, sent, cmdSent, signal, finished, lk, held, idx>> /\ UNCHANGED aq /\ T(1)
+EQ1c == /\ pc1 = "wc1" /\ waker' = TRUE /\ lk' = FALSE /\ pc1' = "e_parked"
+        /\ UNCHANGED <<pc0, ins, del, wakeFlag, r8, n6, q, sent, cmdSent, signal, finished, waker2, held, idx>> /\ UNCHANGED aq /\ T(1)
+
+Next == WQ0 \/ EQ0 \/ EQ1 \/ EQ1b \/ EQ1c \/ R0 \/ R1 \/ R2 \/ R3 \/ W0 \/ S0 \/ S1 \/ S2 \/ S3 \/ NK0 \/ NK2 \/ C0 \/ C1 \/ C2 \/ A0 \/ A1 \/ A2 \/ A3 \/ E0 \/ E1 \/ E1b \/ E2 \/ W1 \/ W2 \/ W2b
 Spec == Init /\ [][Next]_vars
 
 (* -------------------------------------------------------------- property *)
-ProducerIdle == IF Reader THEN pc0 = "r_inject" ELSE (pc0 = "w_pop" /\ q = 0)
+ProducerIdle == IF Reader THEN pc0 = "r_inject" ELSE (pc0 = "w_pop" /\ q = 0 /\ ~(Scenario = "awaitq" /\ Owed))
 \* parked while the awaited condition holds, and nothing is going to wake it
 LostWake ==
   \/ (pc1 = "a_parked" /\ ProducerIdle /\ ins > del /\ ~wakeFlag)
   \/ (pc1 = "c_wait" /\ ProducerIdle /\ ins > del /\ ~Readable)
   \/ (pc1 = "aw_parked" /\ ProducerIdle /\ ~wakeFlag)            \* the queue has room
   \/ (pc1 = "e_parked" /\ signal /\ ~wakeFlag)
+  \* "awaitq", writer idle: the queue has room / the command was worked off and everything is acknowledged
+  \/ (Scenario = "awaitq" /\ pc1 = "e_parked" /\ ProducerIdle /\ ~wakeFlag)
 Inv_NoLostWake == ~LostWake
+\* C20: the wait completes only when nothing is owed any more
+Inv_NoEarlySuccess == finished => ~Owed
 
-View == <<pc0, pc1, ins, del, waker, waker2, wakeFlag, r8, n6, q, sent, cmdSent, signal, finished, lk, held, idx>>
+View == <<pc0, pc1, ins, del, waker, waker2, wakeFlag, r8, n6, q, sent, cmdSent, signal, finished, lk, held, idx, cmdIn, ackw, acked, seen>>
 \* dump the schedule of every behaviour prefix that ends with the producer idle (a quiescent point)
 GenEdge == (GenK > 0 /\ RandomElement(1..GenK) = 1) =>
-             PrintT("REPLAY " \o ToJson([scenario |-> Scenario, n |-> N, kinds |-> Kinds, script |-> Script, sched |-> trail']))
+             PrintT("REPLAY " \o ToJson([scenario |-> Scenario, n |-> N, kinds |-> Kinds, script |-> Script, readers |-> Readers, sched |-> trail']))
 =============================================================================
